@@ -43,6 +43,14 @@ def sample_of(case):
     return s
 
 
+ANCHORS = {
+    'C04': ('bycycle/features/shape.py', 'bycycle/utils/dataframes.py'),
+    'C05': ('bycycle/features/burst.py',),
+    'C06': ('bycycle/burst/cycle.py', 'bycycle/burst/utils.py'),
+    'C07': ('bycycle/features/burst.py', 'bycycle/burst/amp.py', 'bycycle/burst/dualthresh.py'),
+}
+
+
 def run_case(sh, case, prop, api='func', driver='generated', nontrivial=None, totality=True):
     """One monitored execution.  Violations of ``prop`` (and monitor errors) are recorded."""
     before = dict(attach.COUNTS)
@@ -50,13 +58,19 @@ def run_case(sh, case, prop, api='func', driver='generated', nontrivial=None, to
     vs = []
     if exc is not None:
         ok, info = in_domain(case)
-        if ok and totality:
+        if ok:
             if prop == 'C01':
                 vs.append({'mechanism': attach.exc_mechanism(exc),
                            'message': '%s raised %r inside the domain (band-passed signal has %s closed half-waves, '
                                       'filter length %s, signal length %d)'
                                       % ('compute_features' if api == 'func' else 'Bycycle.fit', exc,
                                          info.get('n_before_trim'), info.get('filt_len'), len(case['sig']))})
+            else:
+                # a property that promises a value is violated when its own anchored code raises instead
+                frame = attach.innermost_repo_frame(exc.__traceback__)
+                if frame.split(':')[0] in ANCHORS.get(prop, ()):
+                    vs.append({'mechanism': attach.exc_mechanism(exc),
+                               'message': 'raised %r inside the domain (in %s)' % (exc, frame)})
             sh.note('raised_in_domain:' + type(exc).__name__)
         else:
             sh.note('outside_domain:' + str(info.get('why')))
